@@ -66,7 +66,7 @@ class StepLog(Hooks):
                                uend=hashlib.sha1(np.asarray(L.uend).tobytes()).hexdigest()[:12]))
 
 
-def description(cfg):
+def description(cfg, node_comm=None):
     from pySDC.implementations.problem_classes.TestEquation_0D import testequation0d
     from pySDC.implementations.problem_classes.HeatEquation_ND_FD import heatNd_unforced
     from pySDC.implementations.sweeper_classes.generic_implicit import generic_implicit
@@ -80,8 +80,18 @@ def description(cfg):
         pc, pp = heatNd_unforced, dict(nu=0.1, freq=2, nvars=[31, 15, 7][:NL], bc='dirichlet-zero')
         nodes = [3, 2, 2][:NL]
     useMPI = cfg['mpi']
-    desc = dict(problem_class=pc, problem_params=pp, sweeper_class=generic_implicit,
-                sweeper_params=dict(num_nodes=nodes, quad_type='RADAU-RIGHT', QI='IE'),
+    swp = dict(num_nodes=nodes, quad_type='RADAU-RIGHT', QI='IE')
+    sweeper = generic_implicit
+    if cfg.get('NODES'):
+        # space-time parallel: diagonal preconditioner, the same number of nodes on all levels; with a node communicator the
+        # node-parallel sweeper (and transfer) is used, without one the serial classes with the same coefficients
+        swp = dict(num_nodes=cfg['NODES'], quad_type='RADAU-RIGHT', QI='MIN-SR-S')
+        if node_comm is not None:
+            from pySDC.implementations.sweeper_classes.generic_implicit_MPI import generic_implicit_MPI
+            sweeper = generic_implicit_MPI
+            swp['comm'] = node_comm
+    desc = dict(problem_class=pc, problem_params=pp, sweeper_class=sweeper,
+                sweeper_params=swp,
                 level_params=dict(dt=cfg['DT0'] * UNIT, restol=0.5 if cfg.get('oracle', True) is True else cfg.get('restol', 1e-8),
                                   nsweeps=cfg.get('NSW', [1] * NL) if NL > 1 else cfg.get('NSW', [1])[0]),
                 step_params=dict(maxiter=cfg['MAXITER']),
@@ -94,6 +104,9 @@ def description(cfg):
     if NL > 1:
         desc['space_transfer_class'] = mesh_to_mesh
         desc['space_transfer_params'] = dict(rorder=2, iorder=2)
+        if cfg.get('NODES') and node_comm is not None:
+            from pySDC.implementations.transfer_classes.BaseTransferMPI import base_transfer_MPI
+            desc['base_transfer_class'] = base_transfer_MPI
     cp = dict(logger_level=50, dump_setup=False, hook_class=[StepLog], mssdc_jac=cfg.get('JAC', True), all_to_done=cfg.get('A2D', False))
     if cfg.get('PRED'):
         cp['predict_type'] = cfg['PRED']
@@ -129,10 +142,18 @@ def run_serial(cfg):
 def run_mpi(cfg, sched_seed=0, policy='random'):
     from mpi4py import MPI
     from pySDC.implementations.controller_classes.controller_MPI import controller_MPI
-    desc_cp = [description(dict(cfg, mpi=True)) for _ in range(cfg['NP'])]
+    M = cfg.get('NODES') or 0
 
-    def target(comm):
-        desc, cp = desc_cp[comm.rank]
+    def target(world):
+        if M:
+            # rank r of the world handles node r % M of time step r // M
+            tcomm = world.Split(color=world.rank % M, key=world.rank // M)
+            ncomm = world.Split(color=world.rank // M, key=world.rank % M)
+            desc, cp = description(dict(cfg, mpi=True), node_comm=ncomm)
+            comm = tcomm
+        else:
+            desc, cp = description(dict(cfg, mpi=True))
+            comm = world
         c = controller_MPI(controller_params=cp, description=desc, comm=comm)
         sizes = []
         orig = c.restart_block
@@ -144,9 +165,10 @@ def run_mpi(cfg, sched_seed=0, policy='random'):
         c.restart_block = rb
         P = c.S.levels[0].prob
         uend, stats = c.run(u0=P.u_exact(0.0), t0=cfg['T0'] * UNIT, Tend=cfg['TEND'] * UNIT)
-        return dict(uend=hashlib.sha1(np.asarray(uend).tobytes()).hexdigest()[:12], steps=_steplog(c), rank=comm.rank, last_size=sizes[-1] if sizes else 0)
+        return dict(uend=hashlib.sha1(np.asarray(uend).tobytes()).hexdigest()[:12], steps=_steplog(c), rank=comm.rank, last_size=sizes[-1] if sizes else 0,
+                    node=(world.rank % M) if M else 0)
 
-    results, w, errors = MPI.run_world(cfg['NP'], target, seed=sched_seed, policy=policy)
+    results, w, errors = MPI.run_world(cfg['NP'] * max(M, 1), target, seed=sched_seed, policy=policy)
     out = dict(exc=None, deadlock=bool(w.deadlock), failed=w.failed, events=w.events, nchoices=len(w.choices))
     errs = [e for e in errors if e is not None]
     if errs:
@@ -159,11 +181,19 @@ def run_mpi(cfg, sched_seed=0, policy='random'):
     uends = []
     # ranks that take part in the last block: the first `size` ranks of the last block rank 0 ran (active ranks are a prefix)
     nlast = results[0]['last_size'] if results and results[0] is not None else len(results)
+    out['node_ranks_disagree'] = False
+    by_time_rank = {}
     for r in results:
         if r is not None:
+            by_time_rank.setdefault(r['rank'], []).append(r)
+    for r in results:
+        if r is not None and r['node'] == 0:
             steps += r['steps']
             if r['rank'] < nlast:
                 uends.append(r['uend'])
+            for o in by_time_rank[r['rank']]:
+                if o['steps'] != r['steps'] or o['uend'] != r['uend']:
+                    out['node_ranks_disagree'] = True
     out['steps'] = sorted(steps, key=lambda s: (s['t'], s['riar'], s['slot'], s['dt'], s['niter']))
     out['uends'] = uends
     return out
